@@ -387,6 +387,10 @@ def sym_bytes(n):
 METHOD_SETS = {"cc": ("copy", "copy"), "cb": ("copy", "borrow"), "bc": ("borrow", "copy"), "bb": ("borrow", "borrow")}
 
 
+def _shard_entry(job, logdir, cfgs, idx):
+    return job._run_shard(logdir, cfgs, idx)
+
+
 class CodecJob:
     """Base: iterates configurations, accumulates obligations / violations, produces one result."""
     name = "codec"
@@ -404,23 +408,34 @@ class CodecJob:
     def run(self, logdir):
         import smtengine
         t0 = time.time()
-        q = smtengine.Queries(logdir, self.name.replace("::", "-").replace("[", "").replace("]", ""), keep_unsat=False)
-        obligations, violations, samples = [], [], []
-        fns = set()
-        npaths = 0
+        # the configurations are independent: they are sharded over worker processes (round-robin, so that every
+        # shard gets its share of the expensive ones); each shard keeps its own solver sessions
+        shards = int(os.environ.get("VERIF_X_SHARDS", "4" if self.tier == "thorough" else "3"))
+        cfgs = list(self.configs())
+        shards = max(1, min(shards, len(cfgs)))
         try:
-            mod = load_module()
-            for cfg in self.configs():
-                ob, viol, sample, paths = self.check(mod, cfg, q)
-                obligations += ob
-                violations += viol
-                npaths += paths
-                if sample and len(samples) < 6:
-                    samples.append(sample)
-                if len(violations) >= 4:
-                    break
+            load_module()   # dump the MIR once, before forking
+            if shards == 1:
+                parts = [self._run_shard(logdir, cfgs, 0)]
+            else:
+                import multiprocessing
+                ctx = multiprocessing.get_context("fork")
+                with ctx.Pool(shards) as pool:
+                    parts = pool.starmap(_shard_entry, [(self, logdir, cfgs[i::shards], i) for i in range(shards)])
         except Unsupported as e:
             return [_res(self.name, status="INCONCLUSIVE", reason="MIR construct outside the interpreter: %s" % e, wall=time.time() - t0)]
+        bad = [p["unsupported"] for p in parts if p.get("unsupported")]
+        if bad:
+            return [_res(self.name, status="INCONCLUSIVE", reason="MIR construct outside the interpreter: %s" % bad[0], wall=time.time() - t0)]
+        obligations = [o for p in parts for o in p["obligations"]]
+        violations = [v for p in parts for v in p["violations"]][:4]
+        samples = [x for p in parts for x in p["samples"]][:6]
+        npaths = sum(p["npaths"] for p in parts)
+
+        class _Q:
+            n = sum(p["queries"] for p in parts)
+            solver_s = sum(p["solver_s"] for p in parts)
+        q = _Q()
         inconc = [o for o in obligations if o[1] not in ("unsat", "sat-expected", "sat")]
         status, reason = "PASS", ""
         if violations:
@@ -447,6 +462,26 @@ class CodecJob:
             if not r["reproduced"]:
                 r["detail"] = "none of %d solver counterexamples reproduced natively: %s" % (len(tried), " | ".join(t[:160] for t in tried))
         return [r]
+
+    def _run_shard(self, logdir, cfgs, idx):
+        import smtengine
+        q = smtengine.Queries(logdir, "%s-s%d" % (self.name.replace("::", "-").replace("[", "").replace("]", ""), idx), keep_unsat=False)
+        out = {"obligations": [], "violations": [], "samples": [], "npaths": 0, "queries": 0, "solver_s": 0.0}
+        try:
+            mod = load_module()
+            for cfg in cfgs:
+                ob, viol, sample, paths = self.check(mod, cfg, q)
+                out["obligations"] += ob
+                out["violations"] += viol
+                out["npaths"] += paths
+                if sample and len(out["samples"]) < 3:
+                    out["samples"].append(sample)
+                if len(out["violations"]) >= 4:
+                    break
+        except Unsupported as e:
+            out["unsupported"] = str(e)
+        out["queries"], out["solver_s"] = q.n, q.solver_s
+        return out
 
     def functions(self):
         return ["hcobs::encoder::EncoderState::{new,new_subsequent,encode_borrow,encode_copy,consume_once,write,copy,write_partial_stuff_sequence,encode_header,terminate} (MIR)",
@@ -634,12 +669,12 @@ class EncoderVsReference(CodecJob):
 
     def configs(self):
         quick = self.tier == "quick"
-        lims = [(2, 3), (1, 2), (1, 1), (3, 5)] if not quick else [(2, 3), (1, 2), (1, 1), (3, 5)][:3]
-        Ls = range(0, 9) if not quick else range(0, 7)
+        lims = [(2, 3), (1, 2), (1, 1), (3, 5)] if quick else [(2, 3), (1, 2), (1, 1), (3, 5), (2, 2), (4, 7)]
+        Ls = range(0, 10) if not quick else range(0, 8)
         for lim in lims:
             for L in Ls:
                 for cut in range(0, L + 1):
-                    for ms in (("cb", "bc") if quick else ("cc", "cb", "bc", "bb")):
+                    for ms in (("cb", "bc") if (quick or L > 8) else ("cc", "cb", "bc", "bb")):
                         yield {"L": L, "cuts": [cut], "methods": METHOD_SETS[ms], "limits": lim}
         # three pieces
         for L in ((4, 5) if quick else (4, 5, 6, 7)):
@@ -651,8 +686,8 @@ class EncoderVsReference(CodecJob):
             yield {"L": L, "cuts": [L // 2], "methods": ("borrow", "copy"), "limits": (252, 64008)}
 
     def bounds(self):
-        return ("EncoderState output == canonical encoding for EVERY byte string of length L (quick 0..6, thorough 0..8), every cut into two pieces (three pieces for L 4..7), "
-                "input methods per piece in {encode_copy, encode_borrow}, limits (1,1),(1,2),(2,3),(3,5) passed as Parameters, and the production limits for L <= 6")
+        return ("EncoderState output == canonical encoding for EVERY byte string of length L (quick 0..7, thorough 0..9), every cut into two pieces (three pieces for L 4..7), "
+                "input methods per piece in {encode_copy, encode_borrow}, limits (1,1),(1,2),(2,3),(3,5) (thorough: + (2,2),(4,7)) passed as Parameters, and the production limits for L <= 6")
 
     def check(self, mod, cfg, q):
         L, cuts, methods, lim = cfg["L"], cfg["cuts"], cfg["methods"], cfg["limits"]
@@ -707,15 +742,15 @@ class DecoderVsReference(CodecJob):
         lims = [(2, 3), (1, 2), (252, 64008), (1, 1), (3, 5)]
         if quick:
             lims = lims[:3]
-        Ls = range(0, 8) if not quick else range(0, 6)
+        Ls = range(0, 8) if not quick else range(0, 7)
         for lim in lims:
             for L in Ls:
                 for cut in range(0, L + 1):
-                    for ms in (("cb",) if quick else ("cc", "cb", "bc", "bb")):
+                    for ms in (("cb", "bc") if quick else ("cc", "cb", "bc", "bb")):
                         yield {"L": L, "cuts": [cut], "methods": METHOD_SETS[ms], "limits": lim}
 
     def bounds(self):
-        return ("DecoderState accepts exactly the well-formed strings and returns exactly the reference plain text for EVERY byte string of length L (quick 0..5, thorough 0..7), "
+        return ("DecoderState accepts exactly the well-formed strings and returns exactly the reference plain text for EVERY byte string of length L (quick 0..6, thorough 0..7), "
                 "every cut into two pieces, input methods {decode_copy, decode_borrow}, tiny limits and the production limits 252 / 64008")
 
     def check(self, mod, cfg, q):
